@@ -60,6 +60,7 @@ type cacheEnv struct {
 	dones   []chan struct{}
 	snap    map[string]map[string]string // target -> key -> deterministic encoding of the stored notification
 	leaves  map[string]map[string]*pb.Notification
+	memo    map[*pb.Notification]string // encoding of a stored notification, taken when it is first seen
 	dead    bool // a panic was recovered: locks may still be held, the cache must not be touched again
 }
 
@@ -69,6 +70,9 @@ var detMarshal = proto.MarshalOptions{Deterministic: true}
 func (e *cacheEnv) snapshot() (pi *panicInfo) {
 	snap := map[string]map[string]string{}
 	leaves := map[string]map[string]*pb.Notification{}
+	if e.memo == nil {
+		e.memo = map[*pb.Notification]string{}
+	}
 	pi = guard(func() {
 		for _, t := range e.targets {
 			m := map[string]string{}
@@ -76,8 +80,13 @@ func (e *cacheEnv) snapshot() (pi *panicInfo) {
 			e.c.Query(t, []string{"*"}, func(p []string, _ *ctree.Leaf, v interface{}) error {
 				k := model.Key(p)
 				if n, ok := v.(*pb.Notification); ok {
-					b, _ := detMarshal.Marshal(n)
-					m[k] = string(b)
+					enc, seen := e.memo[n]
+					if !seen {
+						b, _ := detMarshal.Marshal(n)
+						enc = fmt.Sprintf("%p:", n) + string(b)
+						e.memo[n] = enc
+					}
+					m[k] = enc
 					l[k] = n
 				} else {
 					m[k] = fmt.Sprintf("non-notification %T", v)
@@ -258,24 +267,40 @@ func buildState(kind string, rng *rand.Rand, ts int64) *cacheEnv {
 	return e
 }
 
-// addressed reports whether the leaf key k of the message's target is addressed
-// by some update or delete of n (specification-level index from the model package).
-func addressed(n *pb.Notification, k []string) bool {
+// addressing is the set of leaf keys (of the message's target) that the
+// updates and deletes of a notification address (specification-level index
+// from the model package).
+type addressing struct {
+	updates map[string]bool
+	deletes [][]string
+}
+
+func addressingOf(n *pb.Notification) *addressing {
+	a := &addressing{updates: map[string]bool{}}
 	pre := n.GetPrefix()
 	if n.GetAtomic() {
-		if model.Key(model.CacheIndex(pre, nil)) == model.Key(k) {
-			return true
-		}
+		a.updates[model.Key(model.CacheIndex(pre, nil))] = true
 	} else {
 		for _, u := range n.GetUpdate() {
-			if model.Key(model.CacheIndex(pre, u.GetPath())) == model.Key(k) {
-				return true
-			}
+			a.updates[model.Key(model.CacheIndex(pre, u.GetPath()))] = true
 		}
 	}
 	for _, d := range n.GetDelete() {
-		if model.MatchQ(model.CacheIndex(pre, d), k) {
-			return true
+		a.deletes = append(a.deletes, model.CacheIndex(pre, d))
+	}
+	return a
+}
+
+func (a *addressing) has(key string) bool {
+	if a.updates[key] {
+		return true
+	}
+	if len(a.deletes) > 0 {
+		k := model.Unkey(key)
+		for _, q := range a.deletes {
+			if model.MatchQ(q, k) {
+				return true
+			}
 		}
 	}
 	return false
@@ -307,6 +332,10 @@ func checkRejected(r *vlib.Run, n *pb.Notification, err error, before, after map
 		}
 	}
 	target := n.GetPrefix().GetTarget()
+	var addr *addressing
+	if !whole {
+		addr = addressingOf(n)
+	}
 	compared := 0
 	for t, bm := range before {
 		am := after[t]
@@ -318,7 +347,7 @@ func checkRejected(r *vlib.Run, n *pb.Notification, err error, before, after map
 			keys[k] = struct{}{}
 		}
 		for k := range keys {
-			if !whole && t == target && addressed(n, model.Unkey(k)) {
+			if !whole && t == target && addr.has(k) {
 				continue
 			}
 			compared++
@@ -667,26 +696,38 @@ func modeCacheMutation(r *vlib.Run, mode string, trial int, rng *rand.Rand) {
 		return n, true
 	}
 	steps := 60 + rng.Intn(60)
-	var batch []string
-	for i := 0; i < steps && !ct.env.dead; i++ {
-		b, m, rej := corp.mutant(rng, unm)
-		r.Count("mutants_rejected_not_protobuf_valid", int64(rej))
-		n := m.(*pb.Notification)
-		batch = append(batch, ptext(n))
-		if len(batch) > 6 {
-			batch = batch[1:]
+	type mut struct {
+		b  []byte
+		n  *pb.Notification
+		fp string
+	}
+	for i := 0; i < steps && !ct.env.dead; {
+		// A batch of mutants from the current corpus; the batch is on disk before
+		// any of it is executed.
+		var batch []mut
+		var texts []string
+		for k := 0; k < 16 && i+k < steps; k++ {
+			b, m, rej := corp.mutant(rng, unm)
+			r.Count("mutants_rejected_not_protobuf_valid", int64(rej))
+			n := m.(*pb.Notification)
+			batch = append(batch, mut{b, n, shortHash(fingerprint(n))})
+			texts = append(texts, ptext(n))
 		}
-		// The input is on disk before the call.
-		r.SaveCurrent(map[string]interface{}{"mode": mode, "trial": trial, "entry_point": "cache-ingest", "state": kind, "step": i, "last_messages": batch})
-		fp := shortHash(fingerprint(n))
-		out := ct.message(n, b)
-		r.Count("mutants_executed_cache", 1)
-		if corp.feedback("cache|"+out+"|"+fp, b) {
-			r.Count("mutants_novel_kept", 1)
+		r.SaveCurrent(map[string]interface{}{"mode": mode, "trial": trial, "entry_point": "cache-ingest", "state": kind, "first_step": i, "messages": texts})
+		for _, mu := range batch {
+			if ct.env.dead {
+				break
+			}
+			out := ct.message(mu.n, mu.b)
+			r.Count("mutants_executed_cache", 1)
+			if corp.feedback("cache|"+out+"|"+mu.fp, mu.b) {
+				r.Count("mutants_novel_kept", 1)
+			}
+			if rng.Intn(100) < 8 {
+				ct.maintain(randomMaintenance(rng))
+			}
 		}
-		if rng.Intn(100) < 8 {
-			ct.maintain(randomMaintenance(rng))
-		}
+		i += len(batch)
 	}
 	ct.finish()
 }
